@@ -483,6 +483,10 @@ class Case:
         if kind in ('pg2d', 'th2d'):
             from pyiga import bspline
             self.kvs1 = tuple(bspline.KnotVector(np.concatenate(([kv.kv[0]], kv.kv, [kv.kv[-1]])), kv.p + 1) for kv in self.kvs)
+            if s.choice(2):
+                # the LARGER (degree-elevated) space as trial space, the smaller one as test space: fewer rows than columns
+                self.kvs, self.kvs1 = self.kvs1, self.kvs
+                self.desc['spaces_swapped'] = True
         self.boundary = None
         if kind == 'bdry2d':
             self.boundary = [(0, 0), (0, 1), (1, 0), (1, 1)][s.choice(4)]
